@@ -141,20 +141,20 @@ var (
 
 // ByzStrategy is what one Byzantine keyper does (positions are config indices).
 type ByzStrategy struct {
-	Commit    int
-	DegDelta  int         // wrong degree: +1 or -1
-	Eval      map[int]int // receiver position -> evCorrect/evWrong/evNone
-	Accuse    []int       // positions accused (falsely if the target is honest)
-	Apology   int
-	LateDeal  bool // commitment and evals land in the first block after the dealing phase
-	LateAcc   bool
-	LateApo   bool
-	EarlyAcc  bool // accusation already in the last blocks of the dealing phase (outside the stated alphabet)
-	EarlyApo  bool // apology already in the last blocks of the accusing phase
-	DealOff   int  // block offset inside the phase when not late (0..L-1)
-	AccOff    int
-	ApoOff    int
-	VoteFalse bool // votes DKGResult(false) never: kept false (outside the alphabet)
+	Commit     int
+	DegDelta   int         // wrong degree: +1 or -1
+	Eval       map[int]int // receiver position -> evCorrect/evWrong/evNone
+	Accuse     []int       // positions accused (falsely if the target is honest)
+	Apology    int
+	LateDeal   bool // commitment and evals land in the first block after the dealing phase
+	LateAcc    bool
+	LateApo    bool
+	EarlyAcc   bool // accusation already in the last blocks of the dealing phase (outside the stated alphabet)
+	EarlyApo   bool // apology already in the last blocks of the accusing phase
+	DealOff    int  // block offset inside the phase when not late (0..L-1)
+	AccOff     int
+	ApoOff     int
+	AnswerLate bool // also apologize for accusations that reached the chain outside the accusing phase
 }
 
 func (s ByzStrategy) String() string {
@@ -180,8 +180,12 @@ func (s ByzStrategy) String() string {
 	if s.Commit == cmWrongDegree {
 		cm += fmt.Sprintf("%+d", s.DegDelta)
 	}
+	apo := apNames[s.Apology]
+	if s.AnswerLate {
+		apo += "(also for late accusations)"
+	}
 	return fmt.Sprintf("{cm=%s@%s ev=[%s] acc=%v@%s apo=%s@%s}", cm, tm(s.LateDeal, s.DealOff),
-		strings.Join(ev, ","), s.Accuse, tm(s.LateAcc, s.AccOff, s.EarlyAcc), apNames[s.Apology], tm(s.LateApo, s.ApoOff, s.EarlyApo))
+		strings.Join(ev, ","), s.Accuse, tm(s.LateAcc, s.AccOff, s.EarlyAcc), apo, tm(s.LateApo, s.ApoOff, s.EarlyApo))
 }
 
 type stall struct{ Pos, From, Len int } // keyper at config position Pos takes no step in blocks h0+From .. h0+From+Len-1
@@ -634,6 +638,9 @@ func (r *Run) act(b *byzActor) {
 			}
 			ap := r.posOf(tx.Signer)
 			if ap < 0 || ap == b.pos || b.apologized[ap] {
+				continue
+			}
+			if inPhase := tx.Height >= r.h0+L && tx.Height < r.h0+2*L; !inPhase && !st.AnswerLate {
 				continue
 			}
 			for _, a := range tx.Msg.GetAccusation().Accused {
